@@ -29,7 +29,7 @@ def plan(tier):
                 'exactly as for a never-issued identifier, Locate must not list it, and all other objects must be '
                 'unchanged; a cell is (creating operation, after-restart kind) / (probe, identity)',
         'min_monitor': {'identifiers_issued': 1000, 'destroys_acknowledged': 300, 'post_destroy_probes': 3000,
-                        'restarts': 100, 'bystander_checks': 300},
+                        'restarts': 100, 'bystander_checks': 300, 'batches_with_a_failing_last_item': 150},
         'assumptions': ['an identifier counts as issued when a success response carrying it reached the client',
                         'a child killed inside a request may or may not have committed it; identifiers it never '
                         'acknowledged are learned from the store after the restart (they must still be fresh)'],
@@ -119,7 +119,7 @@ def run_case(ctx, case):
                 version = rng.choice(rig.VERSIONS)
                 act = rng.choice(('create', 'create', 'register', 'register', 'create_key_pair', 'derive', 'destroy',
                                   'destroy', 'destroy', 'destroy_newest_then_create', 'restart', 'abandon', 'kill',
-                                  'lifecycle', 'lifecycle', 'locked'))
+                                  'lifecycle', 'lifecycle', 'locked', 'batch', 'batch'))
                 if act == 'create':
                     r = srv.send([op_create(policy='open' if version < (2, 0) else None, names=['k%d' % step])], ident, version)
                     if r.error is None and r.ok():
@@ -209,6 +209,60 @@ def run_case(ctx, case):
                             if r2.error is None and r2.ok():
                                 new_uid(r2.uid(), 'Create-after-destroy-newest')
                                 live[r2.uid()] = ident[0]
+                elif act == 'batch':
+                    # several creating items (and a Destroy) in one request whose last item fails - for a reason of its own, or
+                    # with an internal error: what the earlier items acknowledged stands
+                    items = []
+                    for j in range(rng.randrange(1, 4)):
+                        items.append(rng.choice((('Create', op_create(names=['bt%d-%d' % (step, j)])),
+                                                 ('CreateKeyPair', op_create_key_pair()),
+                                                 ('Register', op_register('secret', secret_data(b'bt-%d-%d' % (step, j)), common_attrs(names=['btr%d-%d' % (step, j)]))))))
+                    cands = [u for u in live if u not in helper.values() and live[u] == ident[0]]
+                    victim = None
+                    before = rows_by_uid(srv.dump())
+                    if cands and rng.random() < 0.5:
+                        victim = rng.choice(cands)
+                        pre_ = (before.get(int(victim), {}).get('crypto_objects') or [None, None, None])[2]
+                        if pre_ != E.State.ACTIVE.value:
+                            items.append(('Destroy', op_destroy(victim)))
+                        else:
+                            victim = None
+                    failing = rng.choice((('internal-error', op_register('split', secret_split(b'S' * 16, prime=2 ** 70), common_attrs(names=['btx%d' % step]))),
+                                          ('not-found', op_get('777777')),
+                                          ('internal-error', op_register('split', secret_split(b'S' * 16, prime=2 ** 70), common_attrs(names=['bty%d' % step]))),
+                                          ('invalid', op_create(length=None))))
+                    items.append(('F:' + failing[0], failing[1]))
+                    try:
+                        r = srv.send([it[1] for it in items], ident, version, error_option=rng.choice((E.BatchErrorContinuationOption.CONTINUE,
+                                                                                                     E.BatchErrorContinuationOption.STOP, None)))
+                    except Exception:
+                        continue
+                    if r.error is not None:
+                        continue
+                    ctx.count('batches_with_a_failing_last_item')
+                    after = rows_by_uid(srv.dump())
+                    has = lambda rows, u: 'managed_objects' in rows.get(int(u), {})
+                    for i, (label, _) in enumerate(items):
+                        it = r.item(i)
+                        if it is None or it['status'] != 0:
+                            continue
+                        if label == 'Destroy':
+                            ctx.count('destroys_acknowledged')
+                            if has(after, victim):
+                                ctx.violation('destroy-acknowledged|nothing-deleted|batch', 'Destroy of %s was acknowledged inside a batch whose last item '
+                                              'failed (%s); the object is still stored' % (victim, items[-1][0]), {'answers': r.brief()})
+                            else:
+                                destroyed.add(victim)
+                                live.pop(victim, None)
+                                check_dead(ctx, srv, victim, helper, rng)
+                        elif not label.startswith('F:'):
+                            for u in [k[2] for k in it['payload'][2] if k[1] == T.TEXT]:
+                                new_uid(u, label + '(batch)')
+                                if not has(after, u):
+                                    ctx.violation('create-acknowledged|not-stored|batch', '%s acknowledged identifier %s inside a batch whose last item '
+                                                  'failed (%s); no such object is stored' % (label, u, items[-1][0]), {'answers': r.brief()})
+                                else:
+                                    live[u] = ident[0]
                 elif act == 'locked':
                     # a transient storage fault: another connection is reading the file, the COMMIT of this request finds
                     # the database locked.  Whatever the server then answers, an acknowledged Destroy has destroyed and
